@@ -75,7 +75,10 @@ NULL_T = base("null")
 
 
 class MM:
-    def __init__(self, doc):
+    def __init__(self, doc, open_extra=("CompletionItemKind",)):
+        # open_extra: enumerations the *Python package* documents as open although the metamodel does
+        # not (issue #344); C17 reads the metamodel strictly and passes open_extra=()
+        self.open_extra = tuple(open_extra)
         self.doc = doc
         self.S = {s["name"]: s for s in doc.get("structures", [])}
         self.E = {e["name"]: e for e in doc.get("enumerations", [])}
@@ -130,7 +133,7 @@ class MM:
 
     def is_open_enum(self, name):
         e = self.E[name]
-        return bool(e.get("supportsCustomValues")) or name == "CompletionItemKind"
+        return bool(e.get("supportsCustomValues")) or name in self.open_extra
 
     def resolve_alias(self, t):
         while t["kind"] == "reference" and t["name"] in self.A and t["name"] not in RAW:
